@@ -590,7 +590,7 @@ func runLife(c *Ctx, sc lifeSc, seedLabel ...interface{}) (out lifeOutcome) {
 			}
 			close(done)
 		}()
-		if !waitCh(done) {
+		if !waitChOpt(done, func() rig.DeadOpt { return rig.DeadOpt{TolerantPing: !mc.WriteFaultArmed()} }) {
 			openGate()
 			ds := rig.ProveDeadOpt(WaitShort, rig.DeadOpt{TolerantPing: !mc.WriteFaultArmed()})
 			for try := 0; try < 40 && !ds.Dead && strings.HasPrefix(ds.Reason, "census changed"); try++ {
